@@ -1177,6 +1177,10 @@ class DirectPtychography(RNGMixin, AutoSerialize):
         if verbose is None:
             verbose = self.verbose
 
+        # resolve aliases (e.g. defocus -> C10 = -defocus) once, so that the seed shifts below use the
+        # same coefficients as the seeding reconstruction
+        aberration_coefs = validate_aberration_coefficients(aberration_coefs)
+
         if bf_mask is None:
             bf_mask = self.bf_mask
         bf = self._return_bf_context(bf_mask)
